@@ -629,6 +629,7 @@ class PathCtx:
         self.scoped = []  # stack of scoped hypotheses (generic elements)
         self.ghost = {}  # ghost state for contracts
         self.effects = []  # ghost effect trace
+        self.meter = None  # live-memory meter (pyvc/memmeter.py), switched on by a contract around a block function
         self._hinted = set()
         self._alive = []  # terms whose ids are used as cache keys must stay alive (z3 reuses ids)
         self.labels = []
